@@ -5,6 +5,7 @@ SPEC = {
         {"comp": "pn", "module": "QV.Model.PacketNumber", "quick": 1500, "thorough": 40000},
         {"comp": "frames", "module": "QV.Model.Frames", "quick": 1500, "thorough": 30000},
         {"comp": "header", "module": "QV.Model.Header", "quick": 1000, "thorough": 20000},
+        {"comp": "tparams", "module": "QV.Model.TParams", "quick": 800, "thorough": 15000},
     ],
     "assumptions": [
         "masks/shifts are modelled arithmetically; the equivalence with the bit-level Rust code is checked by the correspondence on all boundary classes, not proved",
